@@ -257,6 +257,8 @@ var c04NonMembers = []string{
 	"'", "'a", "a'", "'a''b'", "'\\'", "\"", "\"a", "a\"", "\"\\x\"", "\"\\u12\"", "\"\\u12g4\"", "\"\\ud83dzu0041\"", "\"\\\"", "\"a\"\"b\"", "\"\\a\"", "\"\\'\"", "\"\\`\"",
 	"a |", "| a", "a || ", "|| a", "a &&", "&& a", "a & b", "a == ", "== a", "a = b", "a === b", "a <> b", "a =< b", "a => b", "a ! b", "a !", "a +", "* *", "a ** b", "a // // b", "a % % b", "a ÷", "× a",
 	"(", ")", "()", "(a", "a)", "(a))", "((a)", "abs(", "abs(a", "abs(a,)", "abs(,a)", "abs(a b)", "abs a", "\"abs\"(a)", "abs(a)(b)", "(abs)(a)", "&a", "a.&b", "[&a]", "{a: &b}", "&", "sort_by(a, &)", "map(&, a)",
+	"foo.let $x = bar in $x", "foo[*].let $x = a in $x", "foo[].let $x = a in $x", "foo[?a].let $x = a in $x", "foo.*.let $x = a in $x", "@.let $x = a in $x", "$.let $x = a in $x", "*.let $x = a in $x", "{k: a.let $x = b in $x}", "abs(a.let $x = b in $x)", "let $y = a.let $x = b in $x in $y",
+	"a[let $x = `0` in $x]", "{let $x = a in $x: b}", "a.let $x = b in", "a.let $x in $x", "a.$x", "a.$", "a.@", "a.(b | c)", "a.[b].let $x = c in $x", "a.b.let $x = c in $x", "let $x = a in $x.let $y = b in $y", "a.&b", "a.!b", "a.-b", "a.`1`", "a.'r'", "a | .b", "a.[", "a.{", "a.*.",
 	"let", "let $a", "let $a =", "let $a = b", "let $a = b in", "let a = b in a", "let $a b in $a", "let $a = b, in $a", "let $a = b $c = d in $a", "let $a == b in $a", "in", "$a = b", "let $ = a in $", "let $1 = a in $1",
 	"@@", "$$", "@ @", "a @", "@a", "a$", "$.", "@.", "a#b", "a;b", "a\\b", "a?b", "a~b", "a^b", "#", "?", "~", "\x00", "a\x00", "é", "a.é", "\xff", "a\xffb", "1", "-1", "1.5", "a 1", "a -1", "1 + 2", "a + 1", "a.b c.d", "a[0]b", "a[*]b", "a[]b", "a[?b]c", "a.*b", "*a", "a*", "a.**", "**",
 }
